@@ -280,17 +280,4 @@ theorem hasTag_pieces : ∀ (ps : List (Str × Str × Str)) (post : Str), ps ≠
     simp only [piecesSegs, litSeg]
     cases pre <;> simp [hasTag]
 
-/-- a string built from literal text and placeholders resolves to the text with every placeholder substituted -/
-theorem resolve_pieces (env : Env) (ps : List (Str × Str × Str)) (post : Str) (hok : PiecesOk ps post) (hne : ps ≠ []) :
-    resolve env (piecesText ps post) =
-      match piecesValue env ps post with
-      | none => .failed
-      | some t => .text t (loneTag (piecesSegs ps post)) := by
-  unfold resolve scan
-  have := scan_pieces ps post hok []
-  simp only [List.nil_append] at this
-  rw [this]
-  simp only [hasTag_pieces ps post hne, Bool.not_true, Bool.false_eq_true, if_false, render_pieces]
-  cases piecesValue env ps post <;> rfl
-
 end Pandora.Proofs.C17
